@@ -6,7 +6,7 @@ import numpy as np
 
 from .. import decoder, gens
 from ..common import Result
-from ..faults import FileSizeLimit, failing_iter
+from ..faults import FileSizeLimit, failing_iter, source_exception
 from ..monitors import bits_equal, describe
 from ..procs import run_forked
 
@@ -178,7 +178,7 @@ def run_logic(case, env, res, d):
         if case['api'] == 'append':
             ra.append(items[0])
         elif kind == 'iterraises':
-            ra.iterappend(failing_iter(items, pos))
+            ra.iterappend(failing_iter(items, pos, source_exception(n + pos)))
         else:
             ra.iterappend(iter(items))
     try:
